@@ -192,7 +192,7 @@ func reduceDecCase(t *mon.T) {
 
 func runC19(r *mon.Run) {
 	r.Rule = "NumDigits: every bit length 1..130 at 2^k-1, 2^k and at the decimal borders 10^j-1, 10^j, 10^j+1 inside it, both signs; " +
-		"10^j-1/10^j/10^j+1 for every j up to 6000 (quick, plus 300 sampled j up to 101000) / 101000 (thorough) and for twelve giant j from 150000 to 524288; random values up to tens of thousands of bits; oracle = length of the decimal text of |b|. " +
+		"10^j-1/10^j/10^j+1 for every j up to 6000 (quick; plus 300 sampled j, and 10^j-1/10^j for every j up to 101000 against the definition) / 101000 (thorough) and for twelve giant j from 150000 to 524288; random values up to tens of thousands of bits; oracle = length of the decimal text of |b|. " +
 		"Reduce: coefficients with 0..3000 trailing zeros (uint64 and big paths), zeros of any exponent, values whose rounding carries " +
 		"into a power of ten or rounds to zero; two destination pre-states per call. distinct_nontrivial = distinct integers with " +
 		"|b| >= 2^64, negative, or at a decimal border; for Reduce, operands with at least one stripped zero or a rounding."
@@ -219,6 +219,38 @@ func runC19(r *mon.Run) {
 	if r.Quick() {
 		// a sample of the larger lengths (estimates of bits*log10(2) drift with size)
 		r.Parallel("nd-pow10-sampled", 300, func(t *mon.T) { pow10Check(t, t.Rng.Range(6001, 101000)) })
+		// and every j up to 101000 for the two values that straddle the digit
+		// boundary, 10^j - 1 (j digits) and 10^j (j+1 digits); the oracle here is
+		// the definition itself, so no text conversion is needed
+		const block = 50
+		r.Parallel("nd-pow10-dense", (101000+block-1)/block, func(t *mon.T) {
+			j0 := t.Index*block + 1
+			p := new(big.Int).Exp(bTen, big.NewInt(j0), nil)
+			for j := j0; j < j0+block && j <= 101000; j++ {
+				m := new(big.Int).Sub(p, bOne)
+				var a, b apd.BigInt
+				a.SetMathBigInt(m)
+				b.SetMathBigInt(p)
+				ga, gb := apd.NumDigits(&a), apd.NumDigits(&b)
+				t.EvalN(2)
+				if ga != j || gb != j+1 {
+					t.Fail("numdigits-wrong", map[string]interface{}{"how": "pow10-dense", "j": j, "got_10^j-1": ga, "want_10^j-1": j, "got_10^j": gb, "want_10^j": j + 1, "bits": p.BitLen()})
+					return
+				}
+				if j%7 == 0 {
+					// negative values take a different comparison path
+					a.Neg(&a)
+					b.Neg(&b)
+					if ga, gb = apd.NumDigits(&a), apd.NumDigits(&b); ga != j || gb != j+1 {
+						t.Fail("numdigits-wrong", map[string]interface{}{"how": "pow10-dense-negative", "j": j, "got_10^j-1": ga, "got_10^j": gb})
+						return
+					}
+				}
+				p.Mul(p, bTen)
+			}
+			t.Count("numdigits/pow10-dense")
+			t.Nontrivial(fmt.Sprintf("dense|%d", j0))
+		})
 	}
 	// integers far beyond anything a Decimal can hold (NumDigits takes any BigInt)
 	r.Parallel("nd-giant", 12, func(t *mon.T) {
